@@ -3,7 +3,8 @@ import re
 import t2t, corr, semrun, gen, impl, mlmath
 
 OBLIGATIONS = ['Yalafi.C11_rot_length', 'Yalafi.C11_detectParts_tok', 'Yalafi.C11_display_tokens',
-               'Yalafi.C11_display_e2e', 'Yalafi.C11_display_single_e2e', 'Yalafi.C11_display_text', 'Yalafi.C11_display_span', 'Yalafi.C11_display_punct', 'Yalafi.C11_display_punct_kept', 'Yalafi.C11_display_punct_none', 'Yalafi.C11_current_facts', 'Yalafi.C11_display_example_current', 'Yalafi.C11_display_ref_current', 'Yalafi.C11_display_e2e_current']
+               'Yalafi.C11_display_e2e', 'Yalafi.C11_display_single_e2e', 'Yalafi.C11_display_text', 'Yalafi.C11_display_span', 'Yalafi.C11_display_punct', 'Yalafi.C11_display_punct_kept', 'Yalafi.C11_display_punct_none', 'Yalafi.C11_current_facts', 'Yalafi.C11_display_example_current', 'Yalafi.C11_display_ref_current', 'Yalafi.C11_display_e2e_current',
+               'Yalafi.C11_display_rows_e2e', 'Yalafi.C11_rows_one_line_per_row', 'Yalafi.C11_rows_span', 'Yalafi.C11_rows_no_source', 'Yalafi.C11_rows_punct', 'Yalafi.C11_rows_opword', 'Yalafi.C11_rows_first_noword', 'Yalafi.C11_rows_advance', 'Yalafi.C11_rows_current_facts', 'Yalafi.C11_display_rows_example_current', 'Yalafi.C11_display_rows_ref_current', 'Yalafi.C11_display_rows_e2e_current', 'Yalafi.C11_display_rows_eval_current', 'Yalafi.C11_rows_eqnarray_current', 'Yalafi.C11_rows_equation_current', 'Yalafi.C11_rows_eqnarray_eval_current']
 
 ONLY = {'c_group', 'c_unknown', 'c_display', 'c_footnote', 'c_env_unknown'}
 
